@@ -535,6 +535,10 @@ def obligations(tier, build):
                                                                           "operations": ["append", "item assignment", "item deletion"]},
                           leverage="choice feasibility only", stubs=[]))
     import props._owners as owners_
+    obs.append(Obligation("class-routes/list", owners_.class_routes_harness("list"),
+                          bounds={"objects": "base-class instance, two subclasses with their own _c_items_changed, a second instance",
+                                  "listeners": "two listener objects that compare equal", "Undefined": "as item / key / value"},
+                          leverage="choice feasibility only"))
     obs.append(Obligation("detached/list", owners_.detached_harness("list"), bounds={"how the container lost its place": owners_.DETACH_HOWS,
                                                                                       "operations": "3 valid, 2 refused by the built-in"},
                           leverage="choice feasibility only"))
